@@ -1,0 +1,27 @@
+//go:build verif
+
+package json
+
+import "github.com/hashicorp/hcl/v2"
+
+// Exports of internal functions for the verification harness in /verif.
+// This file is compiled only with -tags verif and adds no behaviour.
+
+// VerifToken is the observable part of one scanner token: its type (the
+// tokenType rune), its bytes and its byte range in the scanned buffer.
+type VerifToken struct {
+	Type  rune
+	Bytes []byte
+	Start int
+	End   int
+}
+
+// VerifScan runs the JSON scanner on buf starting at byte 0, line 1, column 1.
+func VerifScan(buf []byte) []VerifToken {
+	toks := scan(buf, pos{Filename: "", Pos: hcl.Pos{Byte: 0, Line: 1, Column: 1}})
+	out := make([]VerifToken, len(toks))
+	for i, t := range toks {
+		out[i] = VerifToken{Type: rune(t.Type), Bytes: t.Bytes, Start: t.Range.Start.Byte, End: t.Range.End.Byte}
+	}
+	return out
+}
